@@ -379,6 +379,7 @@ func c03Pool(rr *rt.R, r *fw.RNG) []*lisp.LVal {
 		lisp.Errorf("an error value"), eval("(ignore-errors (handler-bind ((condition (lambda (&rest e) (car e)))) (error 'x 1)))"),
 		eval("car"), eval("(lambda (x) x)"), eval("(lambda (&rest xs) xs)"), eval("(lambda () (error 'from-callback 1))"), eval("(function defun)"), eval("(function if)"), eval("(flip -)"),
 		eval("(progn (deftype c03t (x) x) (new c03t 5))"), eval("lisp:typedef"),
+		lisp.Int(3), lisp.Int(1 << 32), lisp.Int(1 << 62), lisp.Int(-(1 << 62)), lisp.String("ab"), lisp.String("héé"),
 	}
 	for i, p := range pool {
 		if p == nil {
@@ -415,13 +416,54 @@ func c03Sweep(w *fw.W, idx int) {
 	if arity == 0 {
 		ncalls = 1
 	}
+	// Every second visit of a (function, arity <= 3) enumerates instead of sampling:
+	// arity 1 every pool value; arity 2 and 3 the full cross product of the boundary
+	// values in two positions (a defect that needs a PAIR of unusual arguments, such as
+	// a long string and a count near the integer limit, is otherwise a lottery).
+	rep := k / (len(st.funs) * (maxAr + 1)) // how often this (function, arity) came up before
+	var bidx []int // boundary subset of the pool
+	for j, p := range pool {
+		switch {
+		case p.Type == lisp.LInt, p.Type == lisp.LFloat && (j%2 == 0), p.Type == lisp.LString && len(p.Str) != 1, p.Type == lisp.LBytes && j%2 == 0:
+			bidx = append(bidx, j)
+		}
+	}
+	for _, src := range []int{38, 40, 42, 47, 51, 56, 60, 61, 65, 66} { // 'sym 'list nil '(1 2 3) (vector 1 2 3) map native time duration car lambda
+		if src < len(pool) {
+			bidx = append(bidx, src)
+		}
+	}
+	enumerate := arity >= 1 && arity <= 3 && rep%2 == 0
+	pa, pb := 0, 1
+	if arity == 3 {
+		pair := [][2]int{{0, 1}, {0, 2}, {1, 2}}[(k%len(st.funs)+rep/2)%3]
+		pa, pb = pair[0], pair[1]
+	}
+	if enumerate {
+		if arity == 1 {
+			ncalls = len(pool)
+		} else {
+			ncalls = len(bidx) * len(bidx)
+		}
+		w.Count("sweep_enumerated_batches", 1)
+	}
 	for c := 0; c < ncalls; c++ {
 		args := make([]*lisp.LVal, arity)
 		desc := make([]string, arity)
 		for i := range args {
 			j := r.Intn(len(pool))
-			if arity <= 3 && c < len(pool) && i == c%max(arity, 1) {
+			if !enumerate && arity <= 3 && c < len(pool) && i == c%max(arity, 1) {
 				j = (c / max(arity, 1) * 7) % len(pool) // walk the pool systematically in one position
+			}
+			if enumerate {
+				switch {
+				case arity == 1:
+					j = c
+				case i == pa:
+					j = bidx[c/len(bidx)]
+				case i == pb:
+					j = bidx[c%len(bidx)]
+				}
 			}
 			args[i] = pool[j]
 			desc[i] = fmt.Sprintf("#%d:%s", j, pool[j].Type)
